@@ -162,3 +162,51 @@ def sig(obs):
             for s, lst in sorted(slots.items()):
                 parts.append(f"{sc}{r}{s}" + ",".join(f"{t}:{round(q, 3)}" for t, q in lst))
     return hashlib.sha1("\n".join(parts).encode()).hexdigest()[:16]
+
+
+# ---- run-time observers (no behaviour change) -----------------------------------------------------
+MON = {"installed": False, "bookings": 0, "placements": 0, "slotwalk": 0, "on_book": None, "on_task": None}
+
+
+def install_monitors():
+    """Wrap ResourceScenario.book, TaskScenario.schedule and TaskScenario.scheduleSlot with counters and
+    optional callbacks that are called *after* the wrapped call returns. Fails loudly if a name is gone."""
+    if MON["installed"]:
+        return
+    from scriptplan.core.resource_scenario import ResourceScenario
+    from scriptplan.core.task_scenario import TaskScenario
+
+    orig_book = ResourceScenario.book
+    orig_sched = TaskScenario.schedule
+    orig_slot = TaskScenario.scheduleSlot
+
+    def book(self, sb_idx, task, force=False):
+        r = orig_book(self, sb_idx, task, force)
+        MON["bookings"] += 1
+        cb = MON["on_book"]
+        if cb:
+            cb(self, sb_idx, task, r)
+        return r
+
+    def schedule(self):
+        was = self.scheduled
+        r = orig_sched(self)
+        if not was:
+            MON["placements"] += 1
+            cb = MON["on_task"]
+            if cb:
+                cb(self, r)
+        return r
+
+    def scheduleSlot(self):
+        MON["slotwalk"] += 1
+        return orig_slot(self)
+
+    ResourceScenario.book = book
+    TaskScenario.schedule = schedule
+    TaskScenario.scheduleSlot = scheduleSlot
+    MON["installed"] = True
+
+
+def reset_counters():
+    MON["bookings"] = MON["placements"] = MON["slotwalk"] = 0
